@@ -108,3 +108,473 @@ func HarnessC01_match() {
 	}
 	vAssert("C01.match", got == want)
 }
+
+// ---------------------------------------------------------------------------
+// specMerge: the documented layer-merge rules as a pure functional model
+// (DESIGN.md B.1). ok=false means "rejected".
+
+func specIsDirectiveString(s string) bool {
+	if s == "$required" {
+		return true
+	}
+	return len(s) >= 2 && s[0] == '$' && s[1] >= 'a' && s[1] <= 'z'
+}
+
+// specNoStray: no key or string in t is $required or "$"+lowercase...
+// (strings in the merge harnesses are ASCII, so the byte test is exact).
+func specNoStray(t any) bool {
+	switch x := t.(type) {
+	case map[string]any:
+		for k, v := range x {
+			if specIsDirectiveString(k) || !specNoStray(v) {
+				return false
+			}
+		}
+		return true
+	case []any:
+		for _, v := range x {
+			if !specNoStray(v) {
+				return false
+			}
+		}
+		return true
+	case string:
+		return !specIsDirectiveString(x)
+	}
+	return true
+}
+
+func specWithout(m map[string]any, drop string) map[string]any {
+	r := map[string]any{}
+	for k, v := range m {
+		if k != drop {
+			r[k] = vCopy(v)
+		}
+	}
+	return r
+}
+
+func specMerge(p, c any) (any, bool) {
+	switch pp := p.(type) {
+	case map[string]any:
+		cm, isMap := c.(map[string]any)
+		if !isMap {
+			if len(pp) == 0 {
+				return vCopy(c), true
+			}
+			return nil, false
+		}
+		if rv, ok := cm["$replace"]; ok && rv == true {
+			return specWithout(cm, "$replace"), true
+		}
+		r := map[string]any{}
+		for k, v := range pp {
+			r[k] = vCopy(v)
+		}
+		for k, v := range cm {
+			pv, has := pp[k]
+			if s, isStr := v.(string); isStr && s == "$delete" {
+				if !has {
+					return nil, false
+				}
+				delete(r, k)
+				continue
+			}
+			if has {
+				mv, ok := specMerge(pv, v)
+				if !ok {
+					return nil, false
+				}
+				r[k] = mv
+			} else {
+				r[k] = vCopy(v)
+			}
+		}
+		return r, true
+
+	case []any:
+		cl, isList := c.([]any)
+		if !isList {
+			return nil, false
+		}
+		// "$replace" string entries
+		hasStr := false
+		for _, e := range cl {
+			if s, ok := e.(string); ok && s == "$replace" {
+				hasStr = true
+			}
+		}
+		if hasStr {
+			r := []any{}
+			for _, e := range cl {
+				if s, ok := e.(string); ok && s == "$replace" {
+					continue
+				}
+				r = append(r, vCopy(e))
+			}
+			return r, true
+		}
+		// {$replace: true} entries
+		hasMap := false
+		for _, e := range cl {
+			if em, ok := e.(map[string]any); ok {
+				if rv, ok := em["$replace"]; ok && rv == true {
+					hasMap = true
+				}
+			}
+		}
+		if hasMap {
+			r := []any{}
+			for _, e := range cl {
+				if em, ok := e.(map[string]any); ok {
+					if rv, ok := em["$replace"]; ok && rv == true {
+						if len(em) > 1 {
+							return nil, false
+						}
+						continue
+					}
+				}
+				r = append(r, vCopy(e))
+			}
+			return r, true
+		}
+		r := []any{}
+		for _, e := range pp {
+			if s, ok := e.(string); ok && s == "$required" {
+				continue
+			}
+			r = append(r, vCopy(e))
+		}
+		for _, e := range cl {
+			em, isMap := e.(map[string]any)
+			if !isMap {
+				r = append(r, vCopy(e))
+				continue
+			}
+			if del, ok := em["$delete"]; ok {
+				if len(em) > 1 {
+					return nil, false
+				}
+				hit := false
+				nr := []any{}
+				for _, x := range r {
+					if specMatch(x, del) {
+						hit = true
+						continue
+					}
+					nr = append(nr, x)
+				}
+				if !hit {
+					return nil, false
+				}
+				r = nr
+				continue
+			}
+			if pat, ok := em["$match"]; ok {
+				var val any
+				if v, ok := em["$value"]; ok {
+					if len(em) > 2 {
+						return nil, false
+					}
+					val = v
+				} else {
+					val = specWithout(em, "$match")
+				}
+				hit := false
+				nr := []any{}
+				for _, x := range r {
+					if specMatch(x, pat) {
+						hit = true
+						mv, ok := specMerge(x, val)
+						if !ok {
+							return nil, false
+						}
+						nr = append(nr, mv)
+					} else {
+						nr = append(nr, x)
+					}
+				}
+				if !hit {
+					return nil, false
+				}
+				r = nr
+				continue
+			}
+			r = append(r, vCopy(e))
+		}
+		return r, true
+
+	case nil:
+		return vCopy(c), true
+
+	default:
+		if c == p {
+			return nil, false
+		}
+		return vCopy(c), true
+	}
+}
+
+// ---- generators ----
+
+func ndParentLeaf() any {
+	if ndChoice(4) == 0 {
+		return "$required"
+	}
+	return ndScalar()
+}
+
+// ndListPattern: patterns used by list $match / $delete entries.
+func ndListPattern() any {
+	switch ndChoice(5) {
+	case 0:
+		return ndScalarNN()
+	case 1:
+		return map[string]any{}
+	case 2:
+		return map[string]any{"a": ndScalarNN()}
+	case 3:
+		return map[string]any{"a": ndScalarNN(), "$invert": true}
+	default:
+		return []any{ndScalarNN()}
+	}
+}
+
+// ndChildListEntry: one entry of a child list, directive entries included,
+// also malformed ones (extra keys).
+func ndChildListEntry(menu []int) any {
+	c := ndChoice(len(menu))
+	switch menu[c] {
+	case 0:
+		return ndScalarNN()
+	case 1:
+		return "$replace"
+	case 2:
+		return map[string]any{"$replace": true}
+	case 3:
+		return map[string]any{"$replace": true, "a": ndScalarNN()}
+	case 4:
+		return map[string]any{"$delete": ndListPattern()}
+	case 5:
+		return map[string]any{"$delete": ndListPattern(), "a": ndScalarNN()}
+	case 6:
+		return map[string]any{"$match": ndListPattern(), "b": ndScalarNN()}
+	case 7:
+		return map[string]any{"$match": ndListPattern(), "$value": ndScalarNN()}
+	case 8:
+		return map[string]any{"$match": ndListPattern(), "$value": ndScalarNN(), "a": ndScalarNN()}
+	case 9:
+		return map[string]any{"a": ndScalarNN()}
+	default:
+		return "$delete" // misplaced: a bare string entry
+	}
+}
+
+var fullMenu = []int{0, 1, 2, 3, 4, 5, 6, 7, 8, 9, 10}
+
+// matchMenu: the entry forms that edit existing entries (the interplay of
+// two such entries is where aliasing defects show).
+var matchMenu = []int{0, 4, 6, 7}
+
+func ndChildList(maxLen int) []any {
+	return ndChildListMenu(maxLen, fullMenu)
+}
+
+func ndChildListMenu(maxLen int, menu []int) []any {
+	n := ndChoice(maxLen + 1)
+	l := []any{}
+	for i := 0; i < n; i++ {
+		l = append(l, ndChildListEntry(menu))
+	}
+	return l
+}
+
+// ndChildValue: a child-side value of depth <= d.
+func ndChildValue(d int, maxList int) any {
+	if d <= 0 {
+		return ndScalarNN()
+	}
+	switch ndChoice(3) {
+	case 0:
+		return ndScalarNN()
+	case 1:
+		return ndChildMap(d, maxList)
+	default:
+		return ndChildList(maxList)
+	}
+}
+
+func ndChildMap(d int, maxList int) map[string]any {
+	m := map[string]any{}
+	for _, k := range keysAB {
+		switch ndChoice(4) {
+		case 0:
+		case 1:
+			m[k] = ndScalarNN()
+		case 2:
+			m[k] = "$delete"
+		default:
+			m[k] = ndChildValue(d-1, maxList)
+		}
+	}
+	switch ndChoice(4) {
+	case 1:
+		m["$replace"] = true
+	case 2:
+		m["$replace"] = false // misplaced: not the boolean true
+	case 3:
+		m["$match"] = map[string]any{} // misplaced: list/document directive as a map key
+	}
+	return m
+}
+
+func c01Check(parent, child any) {
+	vObserve("parent", parent)
+	vObserve("child", child)
+	want, wantOK := specMerge(parent, child)
+	if wantOK && !specNoStray(want) {
+		wantOK = false
+	}
+	got, err := merge(vCopy(parent), vCopy(child))
+	if err == nil {
+		err = validate(got)
+	}
+	if err != nil {
+		vCover("merge.rejected")
+	} else {
+		vCover("merge.accepted")
+	}
+	vObserve("wantOK", wantOK)
+	vObserve("accepted", err == nil)
+	vAssert("C01.reject", (err == nil) == wantOK)
+	if err == nil {
+		vAssert("C01.result", vEq(got, want))
+	}
+}
+
+// HarnessC01_mapmap: map over map, values of depth <= 1 on both sides.
+func HarnessC01_mapmap() {
+	if vTier() == 0 {
+		// quick: scalar values on the parent side, child values of depth <= 1
+		parent := ndMap(1, keysAB, 0, ndParentLeaf)
+		child := ndChildMap(1, 0)
+		c01Check(parent, child)
+		return
+	}
+	parent := ndMap(2, keysAB, 1, ndParentLeaf)
+	child := ndChildMap(2, 1)
+	c01Check(parent, child)
+}
+
+// HarnessC01_spine: a map two levels deep with one key per level below the
+// first; the child edits at the bottom (recursion into a key depends only on
+// that key's two values).
+func HarnessC01_spine() {
+	inner := ndMap(1, keysAB, 1, ndParentLeaf)
+	parent := map[string]any{"a": map[string]any{"b": inner}, "b": ndParentLeaf()}
+	cinner := ndChildMap(1, 1)
+	child := map[string]any{"a": map[string]any{"b": cinner}}
+	c01Check(parent, child)
+}
+
+// HarnessC01_listlist: list over list with every directive entry form.
+func HarnessC01_listlist() {
+	pl := 2
+	cl := 1
+	if vTier() > 0 {
+		cl = 2
+	}
+	c01ListList(pl, func() []any { return ndChildList(cl) })
+}
+
+// HarnessC01_listpair: two editing entries ($match / $value / $delete /
+// append) applied in sequence to a parent list of <= 2 entries.
+func HarnessC01_listpair() {
+	if vTier() == 0 {
+		// quick: two $match entries over exactly two parent entries
+		parent := []any{}
+		for i := 0; i < 2; i++ {
+			if ndChoice(2) == 0 {
+				parent = append(parent, ndScalarNN())
+			} else {
+				parent = append(parent, map[string]any{"a": ndScalarNN()})
+			}
+		}
+		pat := func() any {
+			switch ndChoice(3) {
+			case 0:
+				return map[string]any{}
+			case 1:
+				return map[string]any{"a": ndScalarNN()}
+			default:
+				return map[string]any{"a": ndScalarNN(), "$invert": true}
+			}
+		}
+		child := []any{
+			map[string]any{"$match": pat(), "b": ndScalarNN()},
+			map[string]any{"$match": pat(), "b": ndScalarNN()},
+		}
+		c01Check(parent, child)
+		return
+	}
+	c01ListList(2, func() []any {
+		return []any{ndChildListEntry(matchMenu), ndChildListEntry(matchMenu)}
+	})
+}
+
+func c01ListList(pl int, mkChild func() []any) {
+	parent := []any{}
+	n := ndChoice(pl + 1)
+	for i := 0; i < n; i++ {
+		switch ndChoice(4) {
+		case 0:
+			parent = append(parent, ndScalar())
+		case 1:
+			parent = append(parent, "$required")
+		case 2:
+			parent = append(parent, map[string]any{"a": ndScalar()})
+		default:
+			parent = append(parent, map[string]any{"a": ndScalar(), "b": ndScalar()})
+		}
+	}
+	child := mkChild()
+	c01Check(parent, child)
+}
+
+// HarnessC01_kinds: the kind matrix {nil, scalar, {}, map, [], list}^2.
+func HarnessC01_kinds() {
+	gen := func(child bool) any {
+		sc := ndScalar
+		if child {
+			sc = ndScalarNN
+		}
+		switch ndChoice(6) {
+		case 0:
+			if child {
+				return sc()
+			}
+			return nil
+		case 1:
+			return sc()
+		case 2:
+			return map[string]any{}
+		case 3:
+			return map[string]any{"a": sc()}
+		case 4:
+			return []any{}
+		default:
+			return []any{sc()}
+		}
+	}
+	parent := gen(false)
+	child := gen(true)
+	c01Check(parent, child)
+}
+
+func init() {
+	vRegister("HarnessC01_mapmap", HarnessC01_mapmap)
+	vRegister("HarnessC01_listlist", HarnessC01_listlist)
+	vRegister("HarnessC01_kinds", HarnessC01_kinds)
+	vRegister("HarnessC01_spine", HarnessC01_spine)
+	vRegister("HarnessC01_listpair", HarnessC01_listpair)
+}
